@@ -579,7 +579,17 @@ func (c *Ctx) retainedStoredClean() {
 			if len(ret.Results) == 0 {
 				return false
 			}
-			r := ir.SeeThrough(ir.ReturnOperand(ret, 0))
+			// the message result: the first result of type *PublishMessage
+			idx := -1
+			for i := 0; i < h.Signature.Results().Len(); i++ {
+				if namedName(h.Signature.Results().At(i).Type()) == "PublishMessage" && idx < 0 {
+					idx = i
+				}
+			}
+			if idx < 0 || idx >= len(ret.Results) {
+				return false
+			}
+			r := ir.SeeThrough(ir.ReturnOperand(ret, idx))
 			if k, isK := r.(*ssa.Const); isK && k.IsNil() {
 				continue // the failing returns
 			}
@@ -623,7 +633,7 @@ func (c *Ctx) retainedStoredClean() {
 
 // cleanValue: v is the (first) result of a call to a library function that produces a clean message.
 func cleanValue(v ssa.Value, producesClean func(*ssa.Function, int) bool, d int) bool {
-	if ex, ok := v.(*ssa.Extract); ok && ex.Index == 0 {
+	if ex, ok := v.(*ssa.Extract); ok && namedName(ex.Type()) == "PublishMessage" {
 		v = ex.Tuple
 	}
 	call, ok := v.(*ssa.Call)
@@ -775,6 +785,22 @@ func (c *Ctx) queueHandsOutOnlyRemovedEntries() {
 		}
 		n++
 		removes := removeHead != nil && c.reaches(fn, removeHead, 2)
+		// the removal written out in the method itself (removeHead inlined): the occupancy count is stored, or the
+		// identifier is deleted from the index map
+		for _, b := range fn.Blocks {
+			for _, in := range b.Instrs {
+				switch x := in.(type) {
+				case *ssa.Store:
+					if ir.PathOf(x.Addr).Class() == "sessions.Ackqueue.count" {
+						removes = true
+					}
+				case *ssa.Call:
+					if bi, ok := x.Common().Value.(*ssa.Builtin); ok && bi.Name() == "delete" && len(x.Common().Args) > 0 && ir.PathOf(x.Common().Args[0]).Class() == "sessions.Ackqueue.emap" {
+						removes = true
+					}
+				}
+			}
+		}
 		copies := ""
 		for _, b := range fn.Blocks {
 			for _, in := range b.Instrs {
